@@ -2,9 +2,13 @@
 """C20: CowBytes and LongChain behave exactly like a plain byte sequence.
 
     spec/Chain.tla        the property (relational postcondition `Post` on flattened sequences), the canonical
-                          behaviour `Apply`, and the bounded-exhaustive model that emits every operation sequence
+                          behaviour `Apply`, and the bounded-exhaustive model that emits every operation sequence.
+                          Operations: push, insert, pop, remove, split_to, split_off, truncate, advance, clear and
+                          the consuming methods of bytes::Buf (copy_to_bytes, copy_to_slice, get_u8, get_u16);
+                          every observation carries the observing methods of Buf (remaining, chunk, has_remaining,
+                          chunks_vectored) beside as_ref, len, is_empty
     harness chain_vec     replays the sequences on the real cow_bytes::LongChain (borrowed and owned chunks, debug
-                          and production build), random long sequences, and the CowBytes accessor/comparison cases
+                          and production build), random long sequences, and the CowBytes accessor/comparison/Buf cases
     spec/ChainTrace.tla   TLC judges every logged event (the only oracle)
 
 A rejected event is classified by the stable signature TLC prints for it (`REJ` lines: truncate_past_end,
@@ -455,13 +459,26 @@ def check(prop, tier, seed, replay):
                 samples=samples[:3] or [dict(note="no sample")],
                 timing=dict(timing, per_run={f"{r['kind']}_{r['prof']}": dict(harness_s=r["harness_s"], tlc_s=r["tlc_s"]) for r in results}),
                 exhaustive=True,
+                operations=OPS,
+                observed_after_every_operation=["as_ref (chunk list)", "len", "is_empty", "Buf::remaining", "Buf::chunk",
+                                                "Buf::has_remaining", "Buf::chunks_vectored (destination of 2 entries and empty destination)",
+                                                "reading to the end through Buf::chunk/advance on a clone"],
                 explanation="TLC model-checks spec/Chain.tla: from every initial chain shape of the configuration every operation "
-                            "is applied with every argument from 0 to one past the end (every chunk index, every byte offset), "
-                            "to the configured depth; invariants: the canonical behaviour meets the relational postcondition Post, "
+                            "(push, insert, pop, remove, split_to, split_off, truncate, advance, clear, and the consuming methods every "
+                            "bytes::Buf has: copy_to_bytes(n), copy_to_slice(n bytes), get_u8(), get_u16()) "
+                            "is applied with every argument from 0 to one past the end (every chunk index, every byte offset / length), "
+                            "to the configured depth (configurations with StopAtOOR = TRUE, the quick one among them, end a sequence "
+                            "with its first out-of-range call); invariants: the canonical behaviour meets the relational postcondition Post "
+                            "(a consuming Buf method removes the first n bytes and returns exactly those bytes; n > remaining: panic or unchanged), "
                             "no empty chunk, cached length = sum. Every emitted operation sequence is replayed on the real "
                             "cow_bytes::LongChain with borrowed and with owned chunks, in the debug and in the production build "
-                            "(debug assertions off), every call under catch_unwind; seeded random long sequences and the CowBytes "
-                            "accessor/comparison/hash cases are logged the same way. TLC (spec/ChainTrace.tla) evaluates Post on the "
+                            "(debug assertions off), every call under catch_unwind, the Buf methods called through the trait on the chain itself "
+                            "(so an override in the implementation is what runs); after every operation the value is observed through "
+                            "as_ref, len, is_empty, Buf::remaining, Buf::chunk (not empty while bytes remain), Buf::has_remaining and "
+                            "Buf::chunks_vectored (the slices filled are a prefix of the contents, the first one not empty while bytes remain, "
+                            "none for an empty destination); seeded random long sequences over the same operations and the CowBytes "
+                            "accessor/comparison/hash cases (with copy_to_bytes / copy_to_slice at every position, get_u8 / get_u16, has_remaining "
+                            "and chunks_vectored of CowBytes as a Buf) are logged the same way. TLC (spec/ChainTrace.tla) evaluates Post on the "
                             "observed values of every distinct logged event (identical events are judged once) and compares the "
                             "two variants field by field.",
             )
@@ -469,8 +486,11 @@ def check(prop, tier, seed, replay):
                 "bytes::Bytes and the standard library behave as documented (the owned variant delegates to bytes::Bytes)",
                 "Debug formatting and is_temporary()/is_static() distinguish the variants by design and are not compared",
                 "after an operation panicked the value is not inspected further (the property does not speak about it)",
-                "the state of a chain is what its public accessors show (chunk list, len, remaining, chunk, is_empty): "
-                "identical logged events are judged once",
+                "the state of a chain is what its public accessors show (chunk list, len, is_empty, remaining, chunk, has_remaining, "
+                "chunks_vectored): identical logged events are judged once",
+                "of the methods bytes::Buf provides, copy_to_bytes, copy_to_slice, get_u8, get_u16 (big-endian), has_remaining and "
+                "chunks_vectored are exercised; the other fixed-width getters (get_u32, get_i64_le, ...) and take/chain/reader adaptors "
+                "are built from the same remaining/chunk/advance/copy_to_slice calls and are not called separately",
                 "bounded: chunk counts, chunk sizes, segments and depth of the listed configurations; random part seeded",
             ])
         if violations:
@@ -481,7 +501,8 @@ def check(prop, tier, seed, replay):
         log(f"{prop} held on everything explored ({wall:.0f}s)")
         return 0
     finally:
-        pool.shutdown(wait=False, cancel_futures=True)
+        # drop what has not started; wait for the TLC / harness runs that have (they read files of `work`)
+        pool.shutdown(wait=True, cancel_futures=True)
         if os.environ.get("VERIF_KEEP_WORK"):
             log(f"[keep] {work}")
         else:
